@@ -30,6 +30,8 @@ CHECKS["C18"] = {
   "note": TB + "acronym table regenerated from acronym.rs each run; pluralizer crate is a parameter of the variant-table theorem; "
           "Unicode case mapping outside ASCII not modelled (tokens are ASCII alphanumerics by construction of the tokenizer).",
 }
+FIX_COMMITS.append("d23f7ff fix: undo renames directories back shallowest first")
+FIX_COMMITS.append("36a47de fix: rewrite only the header lines of reverse patches")
 FIX_COMMITS.append("be80595 fix: locate edited files under nested renamed directories when writing undo patches")
 FIX_COMMITS.append("6d172b3 fix: refuse to apply when a rename destination already exists")
 CHECKS["C05"] = {
